@@ -151,7 +151,7 @@ impl Check for C09 {
         ]
     }
     fn rule(&self) -> &'static str {
-        "Determinism: 'det-fd' (FD programs with >= 3 interacting constraints, where wake-up and labeling order could follow hash order), 'det-tree' (==/!= programs with hostile subsuming disequalities; one in five takes a list of user-written `_` variables apart and chains them in a non-linear disequality, so the keys of the stored pairs all have the same NAME), 'det-search' (disjunction/recursion programs). Each program: the SAME Query value is run twice in one thread, the AST is rebuilt and run again, and it is run on 5 (quick) / 8 (thorough) fresh threads (fresh SipHash keys); 'xproc' additionally runs the program in 2 fresh PROCESSES. For every det-search program and a quarter of the others two iterators are alive at once: the first iterator of the query is suspended after 1-2 answers while an older, different query is run to its end and a second iterator of the same query value is started and exhausted, then the first is continued; both must yield the sequence of the query run alone. All answer sequences must be identical up to renaming of reified variables (first-occurrence order) and the order of constraints / pairs (L1). Differences are classified: equal after bringing every disequality to solved form (L2) = representation-only; equal as a multiset of ground-instance sets (L3) = order-only; otherwise semantic. Fused: after every exhausted stream next() is called 3 more times and must return None. Laziness: programs with infinitely many answers (loop, always, append with fresh arguments, never()/diverging dfs branch next to a producer, directly and mutually recursive closures without a fresh block run breadth-first and inside dfs { }) must deliver their first 12 answers within 2*10^6 engine steps (hook H1). Distinct = distinct program text; non-trivial = at least one answer."
+        "Determinism: 'det-fd' (FD programs with >= 3 interacting constraints, where wake-up and labeling order could follow hash order), 'det-tree' (==/!= programs with hostile subsuming disequalities; one in five takes a list of user-written `_` variables apart and chains them in a non-linear disequality, so the keys of the stored pairs all have the same NAME), 'det-search' (disjunction/recursion programs). Each program: the SAME Query value is run twice in one thread, the AST is rebuilt and run again, and it is run on 5 (quick) / 8 (thorough) fresh threads (fresh SipHash keys); 'xproc' additionally runs the program in 2 fresh PROCESSES. For every det-search program and a quarter of the others two iterators are alive at once: the first iterator of the query is suspended after 1-2 answers while a second iterator of the same query value is started and exhausted and an older, different query is run to its end, then the first is continued; both must yield the sequence of the query run alone. All answer sequences must be identical up to renaming of reified variables (first-occurrence order) and the order of constraints / pairs (L1). Differences are classified: equal after bringing every disequality to solved form (L2) = representation-only; equal as a multiset of ground-instance sets (L3) = order-only; otherwise semantic. Fused: after every exhausted stream next() is called 3 more times and must return None. Laziness: programs with infinitely many answers (loop, always, append with fresh arguments, never()/diverging dfs branch next to a producer, directly and mutually recursive closures without a fresh block run breadth-first and inside dfs { }) must deliver their first 12 answers within 2*10^6 engine steps (hook H1). Distinct = distinct program text; non-trivial = at least one answer."
     }
     fn assumptions(&self) -> Vec<String> {
         vec!["fresh threads and fresh processes stand for 'a different hash seed' (std RandomState keys are per thread)".into(), "laziness is decided as bounded progress in engine steps, not wall-clock".into()]
